@@ -446,3 +446,24 @@ add('C02', 'class-level-heap', PQF, [("class PcfgQueue:\n", "class PcfgQueue:\n 
 add('C02', 'class-level-default-rebound-in-init *', PQF, "class PcfgQueue:\n", "class PcfgQueue:\n    p_queue = []\n", 'silent')
 add('C02', 'class-level-constant-table *', PQF, "class PcfgQueue:\n", "class PcfgQueue:\n    SAVED_KEYS = ['max_probability', 'min_probability']\n", 'silent')
 add('C08', 'class-level-heap', PQF, [("class PcfgQueue:\n", "class PcfgQueue:\n    p_queue = []\n"), (PQ_INIT, "")], None, 'fire', 'C08.R17')
+PM_ = 'lib_trainer/prince_metrics.py'
+PM_OLD = "    for item in section_list:\n        count_prince[item[1]] += 1"
+add('C06', 'prince-set-of-labels', PM_, PM_OLD, "    count_prince.update({label for _, label in section_list})", 'fire', 'C06.R11')
+add('C17', 'prince-set-of-labels', PM_, PM_OLD, "    count_prince.update({label for _, label in section_list})", 'fire', 'C17.R4')
+add('C06', 'prince-generator-of-labels *', PM_, PM_OLD, "    count_prince.update(label for _, label in section_list)", 'silent')
+add('C06', 'prince-list-of-labels-via-local *', PM_, PM_OLD, "    labels = [section[1] for section in section_list]\n    count_prince.update(labels)", 'silent')
+add('C06', 'prince-filtered', PM_, PM_OLD, "    count_prince.update(label for _, label in section_list if label)", 'fire', 'C06.R11')
+GS_IP = "                    new_ip = element[0][0:-1] + self.cp[last_item[0]][depth_level][last_item[2]]"
+add('C10', 'window-slice-minus-zero', GSF, GS_IP, "                    new_ip = last_item[0][-(self.ip_length - 1):] + self.cp[last_item[0]][depth_level][last_item[2]]", 'fire', 'C10.R13')
+add('C18', 'window-slice-minus-zero', GSF, GS_IP, "                    new_ip = last_item[0][-(self.ip_length - 1):] + self.cp[last_item[0]][depth_level][last_item[2]]", 'fire', 'C18.R11')
+add('C10', 'window-slice-positive-form *', GSF, GS_IP, "                    new_ip = last_item[0][1:] + self.cp[last_item[0]][depth_level][last_item[2]]", 'silent')
+add('C10', 'window-slice-last-ip-length *', GSF, GS_IP, "                    new_ip = (last_item[0] + self.cp[last_item[0]][depth_level][last_item[2]])[-self.ip_length:]", 'silent')
+IPW = "            if not self._increase_ip_for_target(working_target = self.target_level - self.cur_len[0]):"
+add('C11', 'zero-budget-skipped', MCF_, IPW, "            if self.target_level - self.cur_len[0] <= 0 or not self._increase_ip_for_target(working_target = self.target_level - self.cur_len[0]):", 'fire', 'C11.R12')
+add('C10', 'zero-budget-skipped', MCF_, IPW, "            if self.target_level - self.cur_len[0] <= 0 or not self._increase_ip_for_target(working_target = self.target_level - self.cur_len[0]):", 'fire', 'C10.R14')
+add('C11', 'negative-budget-skipped *', MCF_, IPW, "            if self.target_level - self.cur_len[0] < 0 or not self._increase_ip_for_target(working_target = self.target_level - self.cur_len[0]):", 'silent')
+KEYHINT = "        print (\"Press [ENTER] to display a status output\",file=sys.stderr)\n        print (\"Press 'q' [ENTER] to exit\",file=sys.stderr)\n"
+add('C12', 'isatty-in-main-thread', CSF, KEYHINT, "        if sys.stdin.isatty():\n            print (\"Press [ENTER] to display a status output\",file=sys.stderr)\n", 'fire', 'C12.R7')
+add('C12', 'isatty-in-main-thread-guarded *', CSF, KEYHINT, "        try:\n            interactive = sys.stdin.isatty()\n        except Exception:\n            interactive = False\n        if interactive:\n            print (\"Press [ENTER] to display a status output\",file=sys.stderr)\n", 'silent')
+SEEK0 = "                file.seek(0)\n\n            # Read though all the lines in the file"
+add('C14', 'skip-brute-cleared-when-total-is-one', GIO, SEEK0, "                file.seek(0)\n                if total_prob == 1.0:\n                    skip_brute = False\n\n            # Read though all the lines in the file", 'fire', 'C14.R12')
